@@ -470,7 +470,7 @@ func main() {
 			if t == "thorough" {
 				return 2400
 			}
-			return 420
+			return 900
 		},
 		Finish: func(t string, agg *explore.Aggregate) ([]explore.Violation, string) {
 			if agg.Stats["nonempty_results"] < 10000 {
